@@ -193,10 +193,13 @@ func (l *lock) Unlock(key string, lockID string) error {
 	return nil
 }
 
-// verifTraceRemove emits the lock.rem trace event of one queue.remove call when the call returns, still
-// under q.mu (it is deferred after the Unlock): the id, whether an entry left the queue, and the queue
-// before / after. Only used by the verification hooks (build tag `verif`).
+// verifTraceRemove brackets one queue.remove call for the verification trace, both events under q.mu:
+// lock.rem.begin when the call has taken the mutex (before anybody is woken, so that the events of the
+// callers and watchdogs it wakes come after it) and lock.rem when it returns (it is deferred after the
+// Unlock): the id, whether an entry left the queue, and the queue before / after. Only used by the
+// verification hooks (build tag `verif`).
 func verifTraceRemove(q *queue, id string, before []string) func() {
+	verifhook.Trace("lock.rem.begin", "q", q, "id", id, "before", before)
 	return func() {
 		after := verifQueueIDs(q)
 		verifhook.Trace("lock.rem", "q", q, "id", id, "found", len(after) < len(before), "before", before, "ids", after)
